@@ -149,4 +149,95 @@ theorem nameEq_iff (a b : Name) : nameEq a b = true ↔ lowerName a = lowerName 
   rw [beq_iff_eq]
   exact cmpOrder_eq_iff a b
 
+/-! ### absolute names are a prefix-free code on the wire -/
+
+/-- non-empty labels followed by the root label -/
+def AbsLabels (n : Name) : Prop := ∃ ls : List Label, n = ls ++ [[]] ∧ ∀ l ∈ ls, l ≠ []
+
+theorem absLabels_of_wf (ls : List Label) (h : WfName (ls ++ [[]])) : AbsLabels (ls ++ [[]]) := by
+  refine ⟨ls, rfl, fun l hl => h.2.2 l ?_⟩
+  simpa using hl
+
+theorem absLabels_of_decode (w : Bytes) (cur : Nat) (n : Name) (h : decodeName w cur = .ok n) : AbsLabels n := by
+  obtain ⟨ls, _, _, hn, hw⟩ := decodeName_ok w cur n h
+  subst hn
+  exact absLabels_of_wf ls hw
+
+theorem absLabels_lower (n : Name) (h : AbsLabels n) : AbsLabels (lowerName n) := by
+  obtain ⟨ls, rfl, hne⟩ := h
+  refine ⟨ls.map lowerLabel, by simp [lowerName, lowerLabel], ?_⟩
+  intro l hl
+  obtain ⟨l0, hl0, rfl⟩ := List.mem_map.mp hl
+  have := hne l0 hl0
+  intro e
+  apply this
+  unfold lowerLabel at e
+  simpa using e
+
+theorem toWire_prefix_free (a b : Name) (ha : AbsLabels a) (hb : AbsLabels b) (x y : Bytes)
+    (h : toWire a ++ x = toWire b ++ y) : a = b ∧ x = y := by
+  obtain ⟨la, rfl, hna⟩ := ha
+  obtain ⟨lb, rfl, hnb⟩ := hb
+  induction la generalizing lb with
+  | nil =>
+    cases lb with
+    | nil => simpa [toWire] using h
+    | cons l rest =>
+      exfalso
+      have := hnb l (by simp)
+      simp [toWire] at h
+      have := h.1
+      cases l with
+      | nil => exact absurd rfl ‹[] ≠ []›
+      | cons => simp at this
+  | cons l rest ih =>
+    cases lb with
+    | nil =>
+      exfalso
+      have := hna l (by simp)
+      simp [toWire] at h
+      have := h.1
+      cases l with
+      | nil => exact absurd rfl ‹[] ≠ []›
+      | cons => simp at this
+    | cons l' rest' =>
+      simp only [toWire, List.cons_append, List.flatMap_cons, List.append_assoc, List.cons.injEq] at h
+      obtain ⟨hlen, h⟩ := h
+      obtain ⟨hl, h⟩ := List.append_inj h hlen
+      subst hl
+      have := ih (fun x hx => hna x (by simp [hx])) rest' (fun x hx => hnb x (by simp [hx]))
+        (by simpa [toWire] using h)
+      obtain ⟨e1, e2⟩ := this
+      refine ⟨?_, e2⟩
+      have : rest = rest' := by
+        have := congrArg List.dropLast e1
+        simpa using this
+      rw [this]
+
+/-- the algorithm name of a TSIG RDATA that was parsed up to the end of the message -/
+theorem rdataParse_alg_abs (w : Bytes) (a : Nat) (rd : Rdata) (h : rdataParse w a w.length = .ok rd) :
+    AbsLabels rd.algorithm := by
+  unfold rdataParse at h
+  rw [nameAt_fuel] at h
+  split at h; · cases h
+  rename_i alg0 p hrun
+  split at h; · cases h
+  rename_i alg hv
+  obtain ⟨ls, fwd, _, hn, _⟩ := Dec_of_fromWireAux w a a a [] alg0 p hrun
+  have e := validate_eq alg0 alg hv
+  have hwf := (wf_of_validate _ _ hv).2
+  have halg : rd.algorithm = alg := by
+    split at h; · cases h
+    dsimp only at h
+    split at h; · cases h
+    split at h; · cases h
+    split at h; · cases h
+    split at h; · cases h
+    split at h; · cases h
+    cases h; rfl
+  rw [halg, e]
+  simp only [List.nil_append] at hn
+  rw [hn] at hwf ⊢
+  exact absLabels_of_wf ls hwf
+
 end Model.Tsig
